@@ -309,3 +309,7 @@ def run(ctx):
     rule_filed_by_path(ctx)
     rule_accessors_agree(ctx)
     rule_total_errors(ctx)
+    # R17.9: no behaviour changes at a number fixed in the source (sizes, depths, counts, magnitudes are unbounded in the property's domain)
+    from . import scope as _scope
+    _scope.rule_no_size_thresholds(ctx, 'R17.9', ('exceptions',), 'the error tree')
+    _scope.rule_no_value_identity(ctx, 'R17.10', ('exceptions',), 'the error classes and the error tree')
